@@ -408,9 +408,9 @@ func checkIntervalOps(c *Ctx, rule string) {
 					bad = fmt.Sprintf("%s the pieces are %s, the %s is %s", at, ivlString(pieces), op.what, ivlString(want))
 					break
 				}
-				if k > 0 {
+				if k > 0 { // what an empty list yields only matters if the driver ever passes one: decided by the whole-operator walks (C17)
 					if r < 0 || r > int64(k) {
-						bad = fmt.Sprintf("%s the consumed count is %d", at, r)
+						bad = fmt.Sprintf("%s the consumed count is %d: the caller's position in the list leaves the list", at, r)
 						break
 					}
 					for i := int64(0); i < r; i++ {
